@@ -83,6 +83,11 @@ def run(outcome, tier, seed):
             diffs = cli.compare(r, check_stdout=False)
             a_status, a_out, a_err = r["actual"]
             hist[str(a_status)] = hist.get(str(a_status), 0) + 1
+            if b"Broken pipe" in a_err or b"panicked" in a_err:
+                outcome.oracle_failures.append({"what": "a message about the broken pipe (or a panic message) was written to standard error when the "
+                                                        "consumer of stdout was gone", "argv": r["case"].argv,
+                                                "observed": {"status": a_status, "stderr": a_err[:300].decode("utf-8", "replace")}})
+                continue
             if diffs:
                 rec = {"what": "stdout %s: %s" % ("closed by its reader before xt started" if r["case"].mode == "closed" else "is /dev/full", "; ".join(diffs)),
                        "argv": r["case"].argv, "observed": {"status": a_status, "stderr": a_err[:300].decode("utf-8", "replace")},
